@@ -245,8 +245,12 @@ func execValidWith(in val.V, arena *topicArena) val.V {
 				w := &scriptWriter{script: scriptOf(op.At(4))}
 				err := r.Replay(sse.Subscription{Client: w, LastEventID: lastID(op.At(2)), Topics: arena.view(op.At(3).Strs())})
 				return val.L(val.L(val.List(w.calls), val.N(errCode(err))), encState(r.VerifState(), baseTime, true))
-			default:
+			case 2:
 				r.GC()
+				return val.L(val.L(), encState(r.VerifState(), baseTime, true))
+			default:
+				// the exported configuration field is assigned on a replayer in use
+				r.GCInterval = time.Duration(op.At(2).Signed())
 				return val.L(val.L(), encState(r.VerifState(), baseTime, true))
 			}
 		})
@@ -266,6 +270,125 @@ type histGen struct {
 	issued  []string // IDs of accepted puts, in order
 	nextTok uint64
 	nextMan int
+	// how the IDs the publisher chooses itself are spelled (manual mode; also the rejected explicit IDs of automatic mode)
+	manStyle int
+	manPerm  []int // manStyleShuffled: a permutation of 0..len-1 (beyond it: the identity)
+}
+
+// spellings of the k-th explicit ID.  Applications that set IDs themselves mostly number their events, so explicit IDs
+// that LOOK like generated ones (canonical decimals) in every order are a class of their own, next to opaque names.
+const (
+	manStyleName     = iota // "m0", "m1", ...
+	manStyleCounting        // "0", "1", "2", ... exactly what an automatic replayer would issue
+	manStyleDown            // decreasing decimals
+	manStyleBlocks          // decimals, every block of three out of order: 0 2 1 3 5 4 ...
+	manStyleGapped          // increasing with gaps: 0 1 5 6 10 11 ...
+	manStylePadded          // decimals with leading zeros: "000", "001", ...
+	manStyleMixed           // decimals and names alternating
+	manStyleShuffled        // decimals in a shuffled order (manPerm; without one: k*7+3 mod 11 per block of 11)
+	manStyleOffset          // consecutive decimals that do not start at 0
+	numManStyles
+)
+
+func (g *histGen) manID(k int) string {
+	switch g.manStyle {
+	case manStyleCounting:
+		return strconv.Itoa(k)
+	case manStyleDown:
+		return strconv.Itoa(1000 - k%1000)
+	case manStyleBlocks:
+		return strconv.Itoa(k/3*3 + []int{0, 2, 1}[k%3])
+	case manStyleGapped:
+		return strconv.Itoa(k + k/2*3)
+	case manStylePadded:
+		return fmt.Sprintf("%03d", k)
+	case manStyleMixed:
+		if k%2 == 0 {
+			return strconv.Itoa(k)
+		}
+		return "m" + strconv.Itoa(k)
+	case manStyleShuffled:
+		if k < len(g.manPerm) {
+			return strconv.Itoa(g.manPerm[k])
+		}
+		if g.manPerm != nil {
+			return strconv.Itoa(k)
+		}
+		return strconv.Itoa(k/11*11 + (k*7+3)%11)
+	case manStyleOffset:
+		return strconv.Itoa(k + 17)
+	}
+	return "m" + strconv.Itoa(k)
+}
+
+// blockShuffle is a permutation of 0..n-1 that shuffles blocks of 2-5 neighbours (IDs out of order, but close together)
+func blockShuffle(r *rng.R, n int) []int {
+	p := make([]int, n)
+	for i := range p {
+		p[i] = i
+	}
+	for lo := 0; lo < n; {
+		hi := lo + 2 + r.Intn(4)
+		if hi > n {
+			hi = n
+		}
+		for i := hi - 1; i > lo; i-- {
+			j := lo + r.Intn(i-lo+1)
+			p[i], p[j] = p[j], p[i]
+		}
+		lo = hi
+	}
+	return p
+}
+
+// randHist: a history generator with a random spelling of the explicit IDs (opaque names half of the time)
+func randHist(r *rng.R, auto bool, maxOps int) *histGen {
+	g := &histGen{auto: auto}
+	if r.Bool() {
+		g.manStyle = 1 + r.Intn(numManStyles-1)
+		if g.manStyle == manStyleShuffled {
+			g.manPerm = blockShuffle(r, maxOps)
+		}
+	}
+	return g
+}
+
+// unissuedNumeral: a canonical decimal that no accepted put carries - inside the range of the issued numerals if there is
+// a hole there (one of the four nearest to the largest, which one depends on the history's length), else (or if !inside)
+// the largest issued numeral plus one
+func (g *histGen) unissuedNumeral(inside bool) string {
+	have := map[uint64]bool{}
+	var lo, hi uint64
+	first := true
+	for _, id := range g.issued {
+		n, err := strconv.ParseUint(id, 10, 64)
+		if err != nil || strconv.FormatUint(n, 10) != id {
+			continue
+		}
+		have[n] = true
+		if first || n < lo {
+			lo = n
+		}
+		if first || n > hi {
+			hi = n
+		}
+		first = false
+	}
+	if first {
+		return "1"
+	}
+	if inside {
+		holes := []uint64{}
+		for n := hi; n > lo && hi-n < 64 && len(holes) < 4; n-- {
+			if !have[n] {
+				holes = append(holes, n)
+			}
+		}
+		if len(holes) > 0 {
+			return strconv.FormatUint(holes[len(g.issued)%len(holes)], 10)
+		}
+	}
+	return strconv.FormatUint(hi+1, 10)
 }
 
 var topicSets = [][]string{{""}, {"t"}, {"", "t"}, {"u"}}
@@ -293,6 +416,8 @@ const (
 	opRepTopicT   // replay k=3 with topics {"t"} only
 	opRepHuge     // numerals around 2^63 / 2^64 (never issued)
 	opRepNoTopics // replay k=2 by a subscription without topics (a direct user of the replayer; the Server never does)
+	opRepInRange  // a canonical numeral that was never issued although it lies between the smallest and the largest issued one
+	opRepNextNum  // the numeral right after the largest issued one
 	numAbstractOps
 )
 
@@ -330,7 +455,7 @@ func (g *histGen) put(kind int) (idopt val.V, tok uint64, topics []string) {
 		return val.L(val.S("")), tok, topics
 	}
 	if wantID {
-		id := "m" + strconv.Itoa(g.nextMan)
+		id := g.manID(g.nextMan)
 		g.nextMan++
 		if !g.auto && kind != opPutNoTopic {
 			g.issued = append(g.issued, id)
@@ -391,6 +516,8 @@ func (g *histGen) replay(kind int) (idopt val.V, topics []string, script val.V) 
 	case opRepNoTopics:
 		idopt = g.recent(2)
 		topics = nil
+	case opRepInRange, opRepNextNum:
+		idopt = val.L(val.S(g.unissuedNumeral(kind == opRepInRange)))
 	case opRepHuge:
 		idopt = val.L(val.S([]string{"18446744073709551615", "9223372036854775808", "18446744073709551616", "9223372036854775807"}[len(g.issued)%4]))
 	}
@@ -439,6 +566,8 @@ func enumerate(alphabet []int, length int, f func(seq []int)) {
 	rec(0)
 }
 
+var exhaustiveStyles = []int{manStyleName, manStyleCounting, manStyleBlocks, manStyleDown, manStylePadded, manStyleMixed}
+
 var smallAlphabet = []int{opPut0, opPut2, opPutNoTopic, opPutWrongID, opPutEmptyID, opRepNewest, opRep1, opRep2, opRepUnknown, opRepUnset, opRepFail0, opRepNonCanon, opRepHuge}
 
 func weightedOp(r *rng.R) int {
@@ -471,8 +600,72 @@ func genFiniteCapacities(c *Ctx) {
 	}
 }
 
+// arrangements: every sequence of m distinct values out of 0..n-1
+func arrangements(n, m int, f func(seq []int)) {
+	seq := make([]int, 0, m)
+	used := make([]bool, n)
+	var rec func()
+	rec = func() {
+		if len(seq) == m {
+			f(seq)
+			return
+		}
+		for v := 0; v < n; v++ {
+			if !used[v] {
+				used[v] = true
+				seq = append(seq, v)
+				rec()
+				seq = seq[:len(seq)-1]
+				used[v] = false
+			}
+		}
+	}
+	rec()
+}
+
+// explicit IDs that are numerals, in every order: the publisher puts m distinct numbers out of base..base+5 (increasing,
+// decreasing, permuted, with gaps; zero-padded to the given width), then a subscriber presents every number of that range and
+// the next one - buffered, evicted or never issued.  emit gets the IDs put and the IDs presented.
+func manualNumeralSweep(emit func(name string, puts, presented []string)) {
+	for _, sp := range []struct {
+		base  int
+		width int
+	}{{0, 0}, {8, 0}, {0, 2}} {
+		spell := func(v int) string { return fmt.Sprintf("%0*d", sp.width, sp.base+v) }
+		for m := 2; m <= 4; m++ {
+			arrangements(6, m, func(seq []int) {
+				puts := make([]string, m)
+				for i, v := range seq {
+					puts[i] = spell(v)
+				}
+				presented := []string{}
+				for v := 0; v <= 6; v++ {
+					presented = append(presented, spell(v))
+				}
+				emit(fmt.Sprintf("directed:manual-numerals:%d-of-6", m), puts, presented)
+			})
+		}
+	}
+}
+
 func genFinite(c *Ctx) {
 	genFiniteCapacities(c)
+	manualNumeralSweep(func(name string, puts, presented []string) {
+		for _, n := range []int{2, 3, 4, 5} {
+			if n > len(puts)+1 {
+				continue
+			}
+			ops := []val.V{}
+			for i, id := range puts {
+				ops = append(ops, val.L(val.N(0), val.L(val.S(id)), val.Int(i+1), val.Strs([]string{""})))
+			}
+			for _, id := range presented {
+				ops = append(ops, val.L(val.N(1), val.L(val.S(id)), val.Strs([]string{""}), val.L()))
+			}
+			c.Count(name)
+			c.Emit(val.L(val.Int(n), val.Bool(false), val.List(ops)))
+		}
+	})
 	// directed: subscriptions without topics resuming from every age
 	for _, auto := range []bool{false, true} {
 		g := &histGen{auto: auto}
@@ -497,31 +690,40 @@ func genFinite(c *Ctx) {
 				if length == maxLen && n == 3 && !c.Thorough {
 					continue
 				}
+				// up to length 3 also with explicit IDs spelled as numerals (for the longer histories it would triple the run)
+				styles := []int{manStyleName}
+				if length <= 3 {
+					styles = exhaustiveStyles
+				}
 				alphabet := smallAlphabet
 				if length > 4 {
 					// 13^5 x 4 histories are 1.5 million and more than the driver reads back: nine letters there
 					alphabet = []int{opPut0, opPut2, opPutWrongID, opRepNewest, opRep1, opRep2, opRepUnknown, opRepFail0, opRepNonCanon}
 				}
-				enumerate(alphabet, length, func(seq []int) {
-					g := &histGen{auto: auto}
-					ops := make([]val.V, len(seq))
-					for i, k := range seq {
-						ops[i] = finiteOp(g, k, nil)
-					}
-					c.Count(fmt.Sprintf("exhaustive:len%d", length))
-					c.Emit(val.L(val.Int(n), val.Bool(auto), val.List(ops)))
-				})
+				for _, style := range styles {
+					enumerate(alphabet, length, func(seq []int) {
+						g := &histGen{auto: auto, manStyle: style}
+						ops := make([]val.V, len(seq))
+						for i, k := range seq {
+							ops[i] = finiteOp(g, k, nil)
+						}
+						c.Count(fmt.Sprintf("exhaustive:len%d", length))
+						c.Emit(val.L(val.Int(n), val.Bool(auto), val.List(ops)))
+					})
+				}
 			}
 		}
 	}
 	nrand, maxOps := 1500, 60
 	if c.Thorough {
-		nrand, maxOps = 40000, 400
+		// sized to stay below what the driver can read back (1.5 GB of observed states); it was 40000 before the directed
+		// sweeps and ID spellings of round 7 were added
+		nrand, maxOps = 37000, 400
 	}
 	for i := 0; i < nrand; i++ {
 		auto := c.R.Bool()
 		n := []int{2, 3, 4, 5, 7, 8, 16, 64}[c.R.Intn(8)]
-		g := &histGen{auto: auto}
+		g := randHist(c.R, auto, maxOps)
 		l := 1 + c.R.Intn(maxOps)
 		ops := make([]val.V, l)
 		for j := range ops {
@@ -533,9 +735,17 @@ func genFinite(c *Ctx) {
 	}
 }
 
-// valid: abstract ops additionally: GC and clock advances (applied before the op)
+// the user assigns GCInterval (an exported field) between two operations
+func setGCIOp(now, gci int64) val.V { return val.L(val.N(3), val.Z(now), val.Z(gci)) }
+
+// the values the abstract operations -2, -3, -4 assign
+var gciChoices = []int64{1, 25, 0}
+
+// valid: abstract ops additionally: GC (-1), GCInterval assignments (-2, -3, -4) and clock advances (applied before the op)
 func validOp(g *histGen, kind int, now int64, r *rng.R) val.V {
 	switch {
+	case kind <= -2:
+		return setGCIOp(now, gciChoices[-2-kind])
 	case kind == -1:
 		return val.L(val.N(2), val.Z(now))
 	case kind < opRepNewest:
@@ -547,7 +757,53 @@ func validOp(g *histGen, kind int, now int64, r *rng.R) val.V {
 	}
 }
 
+// directed: a long backlog.  A burst of n events (n well above any batch size a collection might work in), a pause longer
+// than the TTL, then ONE Put whose collection is due (or an explicit GC()): all n are expired at that instant - or all but
+// the five that were put just before the pause.  Afterwards resumptions and further Puts (the ring shrinks step by step).
+func genValidBacklog(c *Ctx) {
+	const ttl = 10
+	for _, n := range []int{300, 1000} {
+		for _, auto := range []bool{false, true} {
+			for gk, gci := range []val.V{val.L(), val.L(val.Z(1)), val.L(val.Z(3 * ttl))} {
+				for variant := 0; variant < 3; variant++ {
+					if n > 300 && (gk != 0 || variant == 2) {
+						continue // the long ones cost tens of megabytes of observed ring states each
+					}
+					g := &histGen{auto: auto}
+					vops := []val.V{}
+					for i := 0; i < n; i++ {
+						vops = append(vops, validOp(g, opPut0, int64(i*4/n), nil)) // instants 0..3: collections fall due on the way, nothing has expired
+					}
+					now := int64(100)
+					switch variant {
+					case 0: // everything expired, one Put
+						vops = append(vops, validOp(g, opPut0, now, nil))
+					case 1: // five more just before the pause; they are alive when the Put comes
+						for i := 0; i < 5; i++ {
+							vops = append(vops, validOp(g, opPut2, 9, nil))
+						}
+						now = 14
+						vops = append(vops, validOp(g, opPut0, now, nil))
+					default: // explicit collection
+						vops = append(vops, validOp(g, -1, now, nil), validOp(g, opPut0, now, nil))
+					}
+					vops = append(vops, validOp(g, opRepNewest, now, nil), validOp(g, opRep3, now, nil), validOp(g, opRep5, now+1, nil),
+						validOp(g, opPut0, now+1, nil), validOp(g, opPut0, now+3*ttl, nil), validOp(g, opRep1, now+3*ttl, nil),
+						validOp(g, opPut0, now+6*ttl, nil), validOp(g, -1, now+9*ttl, nil))
+					c.Count(fmt.Sprintf("directed:backlog-%d", n))
+					c.Emit(val.L(val.Z(ttl), val.Bool(auto), gci, val.List(vops)))
+				}
+			}
+		}
+	}
+}
+
 func genValid(c *Ctx) {
+	genValidBacklog(c)
+	genValidHistories(c)
+}
+
+func genValidHistories(c *Ctx) {
 	c.Emit(val.L(val.Z(0), val.Bool(true), val.L(), val.L()))
 	c.Emit(val.L(val.Z(-5), val.Bool(false), val.L(), val.L()))
 	const ttl = 10
@@ -570,6 +826,11 @@ func genValid(c *Ctx) {
 				reduced = append(reduced, step{a, o})
 			}
 		}
+	}
+	// GCInterval assigned between two operations: lowered to 1, raised to 25, switched off (the instant does not matter);
+	// up to length 3 only - the thorough tier's length 4 is as large as the driver can read back without them
+	for _, o := range []int{-2, -3, -4} {
+		full = append(full, step{0, o})
 	}
 	for _, auto := range []bool{false, true} {
 		for _, gci := range []val.V{val.L(), val.L(val.Z(0)), val.L(val.Z(1)), val.L(val.Z(25))} {
@@ -615,6 +876,67 @@ func genValid(c *Ctx) {
 		}
 		c.Count("directed:subscription-without-topics")
 		c.Emit(val.L(val.Z(ttl), val.Bool(auto), val.L(), val.List(vops)))
+	}
+	// directed: explicit IDs that are numerals in every order (the ring is not full / grows from 4 to 8 slots on the way)
+	manualNumeralSweep(func(name string, puts, presented []string) {
+		for _, extra := range []int{0, 3} {
+			if extra > 0 && len(puts) != 3 {
+				continue
+			}
+			vops := []val.V{}
+			tok := uint64(0)
+			for i := 0; i < extra; i++ { // earlier events with names for IDs; they expire before the replays
+				tok++
+				vops = append(vops, val.L(val.N(0), val.Z(0), val.L(val.S("e"+strconv.Itoa(i))), val.N(tok), val.Strs([]string{""})))
+			}
+			for _, id := range puts {
+				tok++
+				vops = append(vops, val.L(val.N(0), val.Z(5), val.L(val.S(id)), val.N(tok), val.Strs([]string{""})))
+			}
+			for _, id := range presented {
+				vops = append(vops, val.L(val.N(1), val.Z(ttl+1), val.L(val.S(id)), val.Strs([]string{""}), val.L()))
+			}
+			c.Count(name)
+			c.Emit(val.L(val.Z(ttl), val.Bool(false), val.L(val.Z(0)), val.List(vops)))
+		}
+	})
+	// directed: GCInterval changed on a replayer in use - before the first Put, after two Puts, after a collection triggered
+	// by a Put, after an explicit one - from every value to every value; then a pause of every relevant length and a Put
+	// (is its collection due under the interval in force NOW?), a resumption, another pause of the new interval and a Put
+	for _, auto := range []bool{false, true} {
+		for _, g0 := range []val.V{val.L(), val.L(val.Z(0)), val.L(val.Z(1)), val.L(val.Z(5)), val.L(val.Z(30))} {
+			for _, g1 := range []int64{0, 1, 2, 5, 30} {
+				for when := 0; when < 4; when++ {
+					for _, pause := range []int64{1, 2, 5, ttl + 1, 30, 41} {
+						g := &histGen{auto: auto}
+						vops := []val.V{}
+						now := int64(0)
+						if when == 0 {
+							vops = append(vops, setGCIOp(now, g1))
+						}
+						vops = append(vops, validOp(g, opPut0, now, nil), validOp(g, opPut2, now+1, nil))
+						now++
+						switch when {
+						case 2: // a Put late enough for any interval: it collects (unless the interval is 0)
+							now += 31
+							vops = append(vops, validOp(g, opPut0, now, nil), validOp(g, opPut0, now, nil))
+						case 3:
+							now += 3
+							vops = append(vops, validOp(g, -1, now, nil), validOp(g, opPut0, now, nil))
+						}
+						if when != 0 {
+							vops = append(vops, setGCIOp(now, g1))
+						}
+						now += pause
+						vops = append(vops, validOp(g, opPut0, now, nil), validOp(g, opRep1, now, nil))
+						now += g1
+						vops = append(vops, validOp(g, opPut0, now, nil), validOp(g, opRepNewest, now, nil), validOp(g, -1, now+ttl, nil))
+						c.Count("directed:gc-interval-changed")
+						c.Emit(val.L(val.Z(ttl), val.Bool(auto), g0, val.List(vops)))
+					}
+				}
+			}
+		}
 	}
 	// directed: "keep (almost) forever" TTLs - close to the largest Duration, 250 years
 	for _, auto := range []bool{false, true} {
@@ -677,7 +999,7 @@ func genValid(c *Ctx) {
 		auto := c.R.Bool()
 		ttlv := []int64{1, 5, 10, 100, 1000}[c.R.Intn(5)]
 		gci := []val.V{val.L(), val.L(val.Z(0)), val.L(val.Z(1)), val.L(val.Z(ttlv / 2)), val.L(val.Z(ttlv * 3))}[c.R.Intn(5)]
-		g := &histGen{auto: auto}
+		g := randHist(c.R, auto, maxOps)
 		l := 1 + c.R.Intn(maxOps)
 		now := int64(0)
 		vops := make([]val.V, l)
@@ -701,6 +1023,11 @@ func genValid(c *Ctx) {
 			now += adv
 			var k int
 			switch x := c.R.Intn(100); {
+			case x < 3:
+				// the interval is changed: switched off, the smallest, a fraction / a multiple of the TTL
+				vops[j] = setGCIOp(now, []int64{0, 1, ttlv / 4, ttlv / 2, ttlv, ttlv * 3}[c.R.Intn(6)])
+				c.Count("random:op:set-gc-interval")
+				continue
 			case x < 12:
 				k = -1
 			case burst == 0 && x < 80:
